@@ -55,11 +55,25 @@ class UnitSpec:
 TAG_RE = re.compile(r'^\[([^\]|]*)\|\s*([^\]]+)\]\s*(.*)$', re.S)
 
 
+# a clause that carries well-formedness (C03) also carries the consistency of observers (C05): "exists iff the parent lists it" is a
+# statement about well-formed trees only, so every mutator's wf / type-check clause is a premise of C05
+TAG_IMPLIES = {'C03': ['C05']}
+
+
+def expand_tags(tags):
+    out = list(tags)
+    for t in tags:
+        for u in TAG_IMPLIES.get(t, []):
+            if u not in out:
+                out.append(u)
+    return out
+
+
 def parse_tagged(rest, lineno, path):
     m = TAG_RE.match(rest.strip())
     if not m:
         raise Undecided('%s:%d: clause needs [tags | label]' % (path, lineno))
-    tags = m.group(1).split()
+    tags = expand_tags(m.group(1).split())
     return tags, m.group(2).strip(), m.group(3).strip()
 
 
@@ -178,7 +192,7 @@ def parse(path):
                 # watch <props...> | <item path>: a function outside the verifier's reach; only its source hash is monitored, a change
                 # makes the properties undecided and hands the decision to the bounded oracle
                 tags, _, pe = rest.partition('|')
-                u.watches.append((cur_source, pe.strip(), tags.split(), lineno))
+                u.watches.append((cur_source, pe.strip(), expand_tags(tags.split()), lineno))
             elif word == 'item':
                 pe = rest
                 as_header = None
@@ -199,7 +213,7 @@ def parse(path):
             cur.ret = rest
             i += 1
         elif word == 'props':
-            cur.props = rest.split()
+            cur.props = expand_tags(rest.split())
             i += 1
         elif word == 'attr':
             cur.attrs.append(rest)
@@ -262,7 +276,7 @@ def parse(path):
             prefix = m.group(4)
             if prefix is not None:
                 prefix = bytes(prefix[1:-1], 'utf-8').decode('unicode_escape').encode('latin-1').decode('utf-8')
-            cur.hints.append((m.group(2).strip(), m.group(1).split(), m.group(3), prefix, text, lineno))
+            cur.hints.append((m.group(2).strip(), expand_tags(m.group(1).split()), m.group(3), prefix, text, lineno))
         else:
             raise Undecided('%s:%d: unknown item directive %r' % (path, lineno, word))
     if not u.name:
